@@ -130,6 +130,12 @@ class Audit:
                       {"token": str(token)})
             if [bd_info(b)["text"] for b in self.bond_descriptors] != [bd_info(b)["text"] for b in token.bond_descriptors]:
                 aud.v("C05/MolGen.__init__/post[descriptors-of-token]", "fragment carries exactly the token's descriptors", {"token": str(token)})
+            # the proved clause `copies-carry-the-written-symbol-id-order-weight-and-atom`, on the real objects
+            if [(bd_info(b)["atom"], bd_info(b)["order"], float(b.weight)) for b in self.bond_descriptors] != \
+                    [(bd_info(b)["atom"], bd_info(b)["order"], float(b.weight)) for b in token.bond_descriptors]:
+                aud.v("C04/MolGen.__init__/post[descriptor-atoms-of-token]", "the open descriptors of a new fragment sit on the atoms (and carry the bond order and weight) "
+                      "of the token's written descriptors", {"token": str(token), "got": [bd_info(b)["atom"] for b in self.bond_descriptors],
+                                                              "written": [bd_info(b)["atom"] for b in token.bond_descriptors]})
             for b in self.bond_descriptors:
                 if not (0 <= b.atom_bonding_to < n):
                     aud.v("C04/MolGen.__init__/post[atom-in-range]", "descriptor atom index within the fragment", {"token": str(token)})
